@@ -300,7 +300,7 @@ for _n in ("break_tie", "check_profile", "check_valuation_profile", "check_squar
     ENTRIES[_n] = (_util(_n), _n == "check_profile")
 
 class C20(Prop):
-    translators = ['posgraph', 'flow', 'bip']   # regenerated from the source on every run (harness/translate.py)
+    translators = ['posgraph', 'flow', 'bip', 'wrappers', 'flowhelpers']   # regenerated from the source on every run (harness/translate.py)
     pid = "C20"
     sources = ["socialchoicekit/bistochastic.py", "socialchoicekit/randomized_allocation.py", "socialchoicekit/deterministic_matching.py", "socialchoicekit/profile_utils.py",
                "socialchoicekit/elicitation_allocation.py", "socialchoicekit/flow.py"]
